@@ -341,3 +341,14 @@ if _z3 is not None:
     CASES.append(_C02.build_neighbors_case())
     for _n in range(6):
         CASES.append(_C02.pairing_grid_case(_n))
+
+
+def LATE_CASES():
+    """the three boundary settings reach the native engine in x, y, z order: the grid entry point of the C API (C14's dispatch
+    case), once per axis being the periodic one, so that an axis read from another axis's argument is seen"""
+    if _z3 is None:
+        return []
+    from props import C14 as _C14
+    return [_C14.dispatch_case("grid", "none", "euler", _bc) for _bc in
+            (("periodical", "reflecting", "reflecting"), ("reflecting", "periodical", "reflecting"),
+             ("reflecting", "reflecting", "periodical"))]
